@@ -47,6 +47,12 @@ impl<'a> Output<'a> {
         }
     }
 
+    /// The number of open captures.
+    #[cfg(feature = "verif_hooks")]
+    pub(crate) fn verif_capture_depth(&self) -> usize {
+        self.capture_stack.len()
+    }
+
     /// Begins capturing into a string or discard.
     pub(crate) fn begin_capture(&mut self, mode: CaptureMode) {
         self.capture_stack.push(match mode {
